@@ -44,6 +44,10 @@ func (c *checker) sample(e *sim.Ev) {
 			return
 		}
 		s := c.server(e.S)
+		// C07: the configuration a server reports exists in its durable state
+		if e.X == "final" || e.X == "quiet" || e.X == "pv-after" {
+			c.checkReportedConfig(s, e)
+		}
 		// C18.2 at rest the last notification equals "is leader"
 		isLeader := int(e.B) == Leader
 		last := false
@@ -72,4 +76,28 @@ func (c *checker) finishNotify() {}
 // resetNotes is called when a new incarnation starts.
 func (s *server) resetNotes() {
 	s.notes, s.lch, s.enters, s.exits = nil, nil, 0, 0
+}
+
+// checkReportedConfig: GetConfiguration() must return a configuration that is
+// in the server's log or in one of its snapshots (at rest).
+func (c *checker) checkReportedConfig(s *server, e *sim.Ev) {
+	rep := e.P
+	c.cov("reported-config-checked")
+	if rep == "" {
+		if len(s.disk.cfgs) == 0 && s.disk.newest() == nil {
+			return
+		}
+	}
+	for _, p := range s.disk.cfgs {
+		if p == rep {
+			return
+		}
+	}
+	for _, sn := range s.disk.snaps {
+		if sn.done && sn.cfg == rep {
+			return
+		}
+	}
+	_, lc := s.disk.latestLogCfg()
+	c.violate("C07", "phantom-configuration", e.Seq, "%s/%d reports configuration [%s] which is neither in its log nor in its snapshots (latest in its log: [%s])", e.S, e.Ep, rep, lc)
 }
